@@ -96,11 +96,11 @@ for _p in ["C01", "C04", "C08", "C09", "C10", "C12", "C15"]:
         "trusted_base": TB_ENUM,
         "assumptions": [],
     }
-PROPS["C01"]["props"] = ["Props/C01a.v"]
+PROPS["C01"]["props"] = ["Props/C01a.v", "Props/C01c.v"]
 PROPS["C04"]["props"] = ["Props/C04.v"]
 PROPS["C08"]["props"] = ["Props/C08.v"]
-PROPS["C09"]["props"] = ["Props/C09.v"]
-PROPS["C10"]["props"] = ["Props/C10.v"]
+PROPS["C09"]["props"] = ["Props/C09.v", "Props/C09c.v"]
+PROPS["C10"]["props"] = ["Props/C10.v", "Props/C10c.v"]
 PROPS["C12"]["props"] = ["Props/C12.v"]
 PROPS["C15"]["props"] = ["Props/C15.v", "Props/C15a.v"]
 
